@@ -1600,7 +1600,11 @@ else:
       __contains__.__doc__ = dict.__contains__.__doc__
       def __setitem__(self, key, value): #XXX: maintains 'history' of values
           sql = "insert into %s values(?,?)" % self.__state__['id']
-          self._engine.execute(sql, (key,value))
+          try:
+              self._engine.execute(sql, (key,value))
+          except: # don't leave the database locked by the failed statement
+              self._conn.rollback()
+              raise
           self._conn.commit()
           return
       __setitem__.__doc__ = dict.__setitem__.__doc__
